@@ -24,11 +24,13 @@ def weekday_tables(ctx):
     out['weekday_offsets'] = (it[0], table_of(u, it[0])[0])
     for key, fn_ in (('forw', 'cctz::detail::next_weekday'), ('back', 'cctz::detail::prev_weekday')):
         u, f, arrs = _arrays(ctx, fn_)
-        if len(arrs) != 1:
+        if len(arrs) > 1:
             raise AnalysisBroken('%s: expected one table, found %d' % (fn_, len(arrs)))
-        out[key] = (arrs[0], table_of(u, arrs[0])[0])
+        # a search written without a table of its own (say, in terms of its sibling) has no table clause; what it
+        # computes is still decided by the abstract executions of C17-window
+        out[key] = (arrs[0], table_of(u, arrs[0])[0]) if arrs else None
     for k in ('by_mon_off', 'forw', 'back'):
-        if not all(isinstance(v, int) for v in out[k][1]):
+        if out[k] is not None and not all(isinstance(v, int) for v in out[k][1]):
             raise AnalysisBroken('weekday table %s does not fold to constants' % k)
     return out
 
